@@ -307,6 +307,12 @@ func TestVerif_C06_resolve(t *testing.T) {
 
 var c06LoopIPs = []string{"127.0.0.1", "127.0.0.2", "127.0.0.3", "::1"}
 
+// c06DeadIPs are loopback addresses on which nothing listens at the listeners' port: a covert
+// pinned to one of them is admitted like any other, but the station's dial is refused. What the
+// station does after a failed dial is part of the property too (it must not go looking for another
+// address: no DNS query, no connection anywhere).
+var c06DeadIPs = []string{"127.0.0.4", "127.0.0.5"}
+
 type c06Accept struct {
 	Listener int
 	Remote   string
@@ -337,6 +343,16 @@ func c06Listen(t *testing.T) *c06Listeners {
 				break
 			}
 			ls.lns = append(ls.lns, l)
+		}
+		for _, ip := range c06DeadIPs {
+			if !ok {
+				break
+			}
+			// nothing of anybody else's may listen there on this port
+			if c, err := net.DialTimeout("tcp", net.JoinHostPort(ip, fmt.Sprint(ls.port)), 5*time.Second); err == nil {
+				c.Close()
+				lastErr, ok = fmt.Errorf("something listens on %s:%d", ip, ls.port), false
+			}
 		}
 		if !ok {
 			for _, l := range ls.lns {
@@ -434,16 +450,16 @@ func c06GenIngest(rt *rapid.T) c06IngestCase {
 		}
 		return out
 	}
-	c.Cfg.Block = pick([]string{"127.0.0.2/32", "127.0.0.3/32", "::1/128", "127.0.0.0/8", "127.0.0.0/31", "127.0.0.2/31", "10.0.0.0/8", "::ffff:127.0.0.2/128", "fe80::/10"}, "block", 3)
+	c.Cfg.Block = pick([]string{"127.0.0.2/32", "127.0.0.3/32", "::1/128", "127.0.0.0/8", "127.0.0.0/31", "127.0.0.2/31", "10.0.0.0/8", "::ffff:127.0.0.2/128", "fe80::/10", "127.0.0.4/32", "127.0.0.1/32"}, "block", 3)
 	if rapid.IntRange(0, 9).Draw(rt, "allowp") < 3 {
-		c.Cfg.Allow = pick([]string{"127.0.0.1/32", "127.0.0.0/30", "::1/128", "127.0.0.0/8", "127.0.0.3/32"}, "allow", 2)
+		c.Cfg.Allow = pick([]string{"127.0.0.1/32", "127.0.0.0/30", "::1/128", "127.0.0.0/8", "127.0.0.3/32", "127.0.0.4/31"}, "allow", 2)
 	}
 	if rapid.IntRange(0, 9).Draw(rt, "domp") < 3 {
 		c.Cfg.Domains = pick([]string{`^rebind\.`, "blocked", "^$", ":", `^127\.`}, "dom", 2)
 	}
 	c.V6 = rapid.Bool().Draw(rt, "v6")
 	ans := func(label string, v6 bool) []string {
-		pool := []string{"127.0.0.1", "127.0.0.1", "127.0.0.2", "127.0.0.3"}
+		pool := []string{"127.0.0.1", "127.0.0.1", "127.0.0.2", "127.0.0.3", "127.0.0.4", "127.0.0.4", "127.0.0.5"}
 		if v6 {
 			pool = []string{"::1", "::1", "::ffff:127.0.0.2", "::ffff:127.0.0.1"}
 		}
@@ -456,6 +472,7 @@ func c06GenIngest(rt *rapid.T) c06IngestCase {
 	hosts := []string{
 		"127.0.0.1", "127.0.0.2", "127.0.0.3", "[::1]", "[::ffff:127.0.0.1]", "[::ffff:7f00:2]", "[0:0:0:0:0:0:0:1]", "[::1%lo]", "[::ffff:127.0.0.1%lo]", "[127.0.0.1]", "127.0.0.01", "127.1",
 		"rebind.example.test", "rebind.example.test", "a.example.test", "a.example.test", "blocked.example.test", "REBIND.example.test", "", "[]",
+		"127.0.0.4", "[::ffff:127.0.0.5]", "rebind.example.test", "a.example.test",
 	}
 	n := 1
 	if rapid.IntRange(0, 4).Draw(rt, "repeat") == 0 {
@@ -555,13 +572,18 @@ func c06CheckIngest(t vh.Fataler, rec *vh.Rec, e *vEnv, d *c06DNS, ls *c06Listen
 	if err != nil {
 		t.Fatalf("harness problem: judged literal %q does not parse", stored.Covert)
 	}
-	want := -1
+	want, dead := -1, false
 	for i, ip := range c06LoopIPs {
 		if netip.MustParseAddr(ip) == c06Plain(ap.Addr()) {
 			want = i
 		}
 	}
-	if want < 0 || int(ap.Port()) != ls.port {
+	for _, ip := range c06DeadIPs {
+		if netip.MustParseAddr(ip) == c06Plain(ap.Addr()) {
+			dead = true
+		}
+	}
+	if (want < 0 && !dead) || int(ap.Port()) != ls.port {
 		classes = append(classes, "dial:skipped-not-a-listener")
 		rec.Case(true, vh.Digest(c), c, append(classes, c.Labels...)...)
 		return
@@ -577,12 +599,39 @@ func c06CheckIngest(t vh.Fataler, rec *vh.Rec, e *vEnv, d *c06DNS, ls *c06Listen
 	if hp != "" {
 		t.Fatalf("harness problem: %s", hp)
 	}
-	classes = append(classes, "dial:performed")
-	if subs[which].covert != stored.Covert {
-		classes = append(classes, "dial:after-rewrite")
+	isName := false
+	if h, _, ok := c06Split(subs[which].covert); ok {
+		_, err := netip.ParseAddr(h)
+		isName = err != nil
+	}
+	if dead {
+		classes = append(classes, "dial:refused")
+		if isName {
+			classes = append(classes, "dial:refused-name-pinned")
+			if len(c.Script.Epochs) > 1 {
+				classes = append(classes, "dial:refused-name-pinned-answers-change")
+			}
+		}
+	} else {
+		classes = append(classes, "dial:performed")
+		if subs[which].covert != stored.Covert {
+			classes = append(classes, "dial:after-rewrite")
+		}
 	}
 	if n := len(d.snapshot()); n != nAfterIngest {
 		fail("covert:lookup-after-admission", "coverts %q: %d DNS queries were made after admission, while dialling %q: %v", c.Coverts, n-nAfterIngest, stored.Covert, d.snapshot()[nAfterIngest:])
+		return
+	}
+	if dead {
+		if len(got) != 0 {
+			var where []string
+			for _, g := range got {
+				where = append(where, c06LoopIPs[g.Listener])
+			}
+			fail("covert:dial-mismatch", "coverts %q admitted as %q, where nothing listens; after the refused dial Proxy connected to %v (the only address it may dial is the one that was checked)", c.Coverts, stored.Covert, where)
+			return
+		}
+		rec.Case(true, vh.Digest(c), c, append(classes, c.Labels...)...)
 		return
 	}
 	if len(got) != 1 || got[0].Listener != want {
@@ -597,9 +646,10 @@ func c06CheckIngest(t vh.Fataler, rec *vh.Rec, e *vEnv, d *c06DNS, ls *c06Listen
 }
 
 func TestVerif_C06_ingest(t *testing.T) {
-	rec := vh.NewRec("C06", "ingest", "rapid: 1-2 registrations of one client secret (covert = literal in several textual forms / host name / empty host, port = the port of loopback listeners on 127.0.0.1-3 and ::1) x configuration over loopback subnets x resolver script whose answers change between lookups; ingestRegistration on a RegistrationManager with the real transports, then the registration found for the phantom is handed to Proxy. Oracle: the stored Covert is judged like a ParseOrResolveBlocklisted result against the covert of the registration that became valid and the DNS queries served during its ingest; a canonical permitted covert must yield a valid registration with the covert unchanged; Proxy connects exactly once, to the listener whose address is the stored literal, and makes no DNS query. Non-trivial: every case with a valid registration or a forbidden input. Distinct by case")
+	rec := vh.NewRec("C06", "ingest", "rapid: 1-2 registrations of one client secret (covert = literal in several textual forms / host name / empty host, port = the port of loopback listeners on 127.0.0.1-3 and ::1; 127.0.0.4-5 have no listener on that port, so the dial of a covert pinned there is refused) x configuration over loopback subnets x resolver script whose answers change between lookups; ingestRegistration on a RegistrationManager with the real transports, then the registration found for the phantom is handed to Proxy. Oracle: the stored Covert is judged like a ParseOrResolveBlocklisted result against the covert of the registration that became valid and the DNS queries served during its ingest; a canonical permitted covert must yield a valid registration with the covert unchanged; Proxy connects exactly once, to the listener whose address is the stored literal, and makes no DNS query; when the stored literal refuses the connection Proxy connects nowhere and still makes no DNS query (no fall-back to another address of the name). Non-trivial: every case with a valid registration or a forbidden input. Distinct by case")
 	defer rec.Flush()
 	rec.Require("ingest:valid-registration", "ingest:no-valid-registration", "ingest:repeated-registration", "dial:performed", "dial:after-rewrite",
+		"dial:refused", "dial:refused-name-pinned", "dial:refused-name-pinned-answers-change",
 		"out:name-accepted", "dns:answers-change-between-lookups", "cfg:allowlist", "in:literal-forbidden")
 	d := c06InstallResolver(t)
 	ls := c06Listen(t)
